@@ -8,24 +8,33 @@
    deleted numbers"): the tree-level composition -- that delete_object reaches every node of a well-formed page tree (so
    the page's reference leaves its parent's Kids) and that [represents] (C12) is preserved; decided on the implementation
    by the harness ([tree_wf] before and after every delete_pages). *)
-From LV Require Import Base.Bytes Model.Obj Model.DocQ Model.PageTree Model.Traverse Model.Edit
-  Proofs.RenumberProofsMap Proofs.EditProofs.
+From LV Require Import Base.Bytes Model.Obj Model.DocQ Model.PageTree Model.Traverse Model.Edit Gen.Consts
+  Proofs.RenumberProofsMap Proofs.EditProofs Proofs.EditProofsRes Proofs.EditProofsContent.
 From LV Require Proofs.FilterProofsDict.
 
-(* one ancestor: its id, its dictionary, its Count when that is an integer *)
+(* one ancestor: its id, its dictionary, its Count when that is an integer (possibly an indirect object) *)
 Definition anc := (oid * dict * option Z)%type.
 Definition anc_id (a : anc) : oid := fst (fst a).
 
+(* the Count entry when it is an integer in the dictionary itself *)
 Definition count_of (d : dict) : option Z := match dict_get d K_Count with Some (OInt c) => Some c | _ => None end.
+Definition count_direct (d : dict) : Prop := forall i g, dict_get d K_Count <> Some (ORef i g).
 
-(* the chain the loop follows from [r] in the map [m] *)
-Inductive anc_chain (m : objmap) : option oid -> list anc -> Prop :=
-| ac_none : anc_chain m None []
-| ac_stop id : (forall d, lookup m id <> Some (ODict d)) -> anc_chain m (Some id) []
-| ac_cons id d rest :
-    lookup m id = Some (ODict d) -> count_of d <> Some I64_MIN ->
-    anc_chain m (as_ref (dict_get d K_Parent)) rest ->
-    anc_chain m (Some id) ((id, d, count_of d) :: rest).
+Lemma read_count_direct m d : count_direct d -> read_count m d = count_of d.
+Proof.
+  unfold count_direct, read_count, count_of. intro H. destruct (dict_get d K_Count) as [c|]; [|reflexivity].
+  destruct c as [| | | | | | | | |i g]; try (rewrite dereference_nonref by exact I; reflexivity).
+  exfalso. exact (H i g eq_refl).
+Qed.
+
+(* the chain the loop follows from [r] in the map [m]; the Count of an ancestor is read through references ([read_count]) *)
+Inductive ref_chain (m : objmap) : option oid -> list anc -> Prop :=
+| rc_none : ref_chain m None []
+| rc_stop id : (forall d, lookup m id <> Some (ODict d)) -> ref_chain m (Some id) []
+| rc_cons id d rest :
+    lookup m id = Some (ODict d) -> read_count m d <> Some I64_MIN ->
+    ref_chain m (as_ref (dict_get d K_Parent)) rest ->
+    ref_chain m (Some id) ((id, d, read_count m d) :: rest).
 
 Definition dec_one (m : objmap) (a : anc) : objmap :=
   match a with
@@ -46,12 +55,37 @@ Proof. unfold count_of. destruct (dict_get d K_Count) as [[| |z| | | | | | |]|];
 Lemma parent_after_count d c : dict_get (dict_set d K_Count (OInt c)) K_Parent = dict_get d K_Parent.
 Proof. apply FilterProofsDict.dict_get_set_other. intro H; discriminate H. Qed.
 
-(* the loop on a chain of pairwise different ancestors; [m1] may differ from [m] at dictionaries that are not on the
-   rest of the chain (the ancestors already rewritten) *)
+(* the loop on a chain of pairwise different ancestors; [m1] may differ from [m] at dictionaries -- still dictionaries in m1 --
+   that are not on the rest of the chain (the ancestors already rewritten) *)
 Definition agrees_off (m m1 : objmap) (l : list anc) : Prop :=
-  forall x, lookup m1 x = lookup m x \/ ((exists d, lookup m x = Some (ODict d)) /\ ~ In x (map anc_id l)).
+  forall x, lookup m1 x = lookup m x \/
+            ((exists d, lookup m x = Some (ODict d)) /\ (exists d1, lookup m1 x = Some (ODict d1)) /\ ~ In x (map anc_id l)).
 
-Lemma count_loop_chain_gen m : forall r l, anc_chain m r l ->
+(* a reference chain that ends at an integer meets no dictionary object: it reads the same in both maps *)
+Definition int_result (x : option (option oid * obj)) : option Z := match x with Some (_, OInt n) => Some n | _ => None end.
+
+Lemma deref_aux_int_agrees m m1 l : agrees_off m m1 l ->
+  forall f last o, int_result (deref_aux m1 f last o) = int_result (deref_aux m f last o).
+Proof.
+  intro A. induction f as [|f IH]; intros last o; destruct o as [| | | | | | | | |i g]; cbn [deref_aux]; try reflexivity.
+  - destruct (A (i, g)) as [E|[[d E] [[d1 E1] _]]]; [rewrite E; reflexivity|]. rewrite E, E1. reflexivity.
+  - destruct (A (i, g)) as [E|[[d E] [[d1 E1] _]]].
+    + rewrite E. destruct (lookup m (i, g)); [apply IH | reflexivity].
+    + rewrite E, E1, !deref_aux_dict. reflexivity.
+Qed.
+
+Lemma read_count_agrees m m1 l d : agrees_off m m1 l -> read_count m1 d = read_count m d.
+Proof.
+  intro A. unfold read_count. destruct (dict_get d K_Count) as [c|]; [|reflexivity].
+  pose proof (deref_aux_int_agrees m m1 l A (N.to_nat DEREF_LIMIT) None c) as H. unfold dereference, int_result in *.
+  destruct (deref_aux m1 _ None c) as [[r1 y1]|]; destruct (deref_aux m _ None c) as [[r y]|].
+  - destruct y1; destruct y; try reflexivity; try discriminate; exact H.
+  - destruct y1; try reflexivity; discriminate.
+  - destruct y; try reflexivity; discriminate.
+  - reflexivity.
+Qed.
+
+Lemma count_loop_chain_gen m : forall r l, ref_chain m r l ->
   forall m1 fuel, agrees_off m m1 l -> NoDup (map anc_id l) -> (length l < fuel)%nat ->
     count_loop fuel m1 r = (dec_all m1 l, LOk).
 Proof.
@@ -63,41 +97,66 @@ Proof.
     exfalso. exact (Hn d0 eq_refl).
   - destruct fuel as [|k]; [cbn in Hf; lia|]. cbn [count_loop dec_all fold_left].
     cbn [map anc_id fst] in ND. inversion ND as [|? ? Hnin ND']; subst.
-    destruct (A id) as [E|[_ Hx]]; [|exfalso; apply Hx; left; reflexivity].
+    destruct (A id) as [E|[_ [_ Hx]]]; [|exfalso; apply Hx; left; reflexivity].
     rewrite E, L.
-    assert (Next : forall m2, (forall x, x <> id -> lookup m2 x = lookup m1 x) ->
+    assert (Next : forall m2, (forall x, x <> id -> lookup m2 x = lookup m1 x) -> (exists d2, lookup m2 id = Some (ODict d2)) ->
               count_loop k m2 (as_ref (dict_get d K_Parent)) = (dec_all m2 rest, LOk)).
-    { intros m2 H2. apply IH; [|exact ND' | cbn [length] in Hf; lia].
+    { intros m2 H2 H2d. apply IH; [|exact ND' | cbn [length] in Hf; lia].
       intro x. destruct (oid_eq_dec x id) as [->|Hne].
-      - right. split; [exists d; exact L | exact Hnin].
-      - rewrite H2 by exact Hne. destruct (A x) as [Ex|[Hd Hx]]; [left; exact Ex|].
-        right. split; [exact Hd|]. intro Hin. apply Hx. right. exact Hin. }
-    unfold count_of at 1. destruct (dict_get d K_Count) as [[| |c| | | | | | |]|] eqn:Ec;
-      try (cbn [dec_one]; apply Next; intros; reflexivity).
-    assert (Hmin : (c =? I64_MIN)%Z = false).
-    { apply Z.eqb_neq. intro E1. apply Hc. unfold count_of. rewrite Ec, E1. reflexivity. }
-    rewrite Hmin. cbn [dec_one]. rewrite parent_after_count. apply Next.
-    intros x Hx. rewrite lookup_update. replace (oid_eqb id x) with false; [reflexivity|].
-    symmetry. apply oid_eqb_neq. congruence.
+      - right. split; [exists d; exact L | split; [exact H2d | exact Hnin]].
+      - rewrite H2 by exact Hne. destruct (A x) as [Ex|[Hd [Hd1 Hx]]]; [left; exact Ex|].
+        right. split; [exact Hd|]. split; [exact Hd1|]. intro Hin. apply Hx. right. exact Hin. }
+    rewrite (read_count_agrees m m1 _ d A).
+    destruct (read_count m d) as [c|] eqn:Ec.
+    + assert (Hmin : (c =? I64_MIN)%Z = false).
+      { apply Z.eqb_neq. intro E1. apply Hc. rewrite E1. reflexivity. }
+      rewrite Hmin. cbn [dec_one]. rewrite parent_after_count. apply Next.
+      * intros x Hx. rewrite lookup_update. replace (oid_eqb id x) with false; [reflexivity|].
+        symmetry. apply oid_eqb_neq. congruence.
+      * eexists. rewrite lookup_update, oid_eqb_refl, E, L. reflexivity.
+    + cbn [dec_one]. apply Next; [intros; reflexivity | exists d; rewrite E; exact L].
+Qed.
+
+Theorem count_loop_ref_chain m r l fuel :
+  ref_chain m r l -> NoDup (map anc_id l) -> (length l < fuel)%nat ->
+  count_loop fuel m r = (dec_all m l, LOk).
+Proof. intros C ND Hf. apply (count_loop_chain_gen m r l C); [intro x; left; reflexivity | exact ND | exact Hf]. Qed.
+
+(* ---- ancestors whose Count is in the dictionary itself (the layout of Spec/PageTreeEdit.v; the tree-level proofs) ---- *)
+Inductive anc_chain (m : objmap) : option oid -> list anc -> Prop :=
+| ac_none : anc_chain m None []
+| ac_stop id : (forall d, lookup m id <> Some (ODict d)) -> anc_chain m (Some id) []
+| ac_cons id d rest :
+    lookup m id = Some (ODict d) -> count_direct d -> count_of d <> Some I64_MIN ->
+    anc_chain m (as_ref (dict_get d K_Parent)) rest ->
+    anc_chain m (Some id) ((id, d, count_of d) :: rest).
+
+Lemma anc_chain_ref_chain m r l : anc_chain m r l -> ref_chain m r l.
+Proof.
+  induction 1 as [|id Hn|id d rest L Hd Hc C IH]; [constructor | constructor; exact Hn|].
+  rewrite <- (read_count_direct m d Hd). constructor; [exact L | rewrite (read_count_direct m d Hd); exact Hc | exact IH].
 Qed.
 
 Theorem count_loop_chain m r l fuel :
   anc_chain m r l -> NoDup (map anc_id l) -> (length l < fuel)%nat ->
   count_loop fuel m r = (dec_all m l, LOk).
-Proof. intros C ND Hf. apply (count_loop_chain_gen m r l C); [intro x; left; reflexivity | exact ND | exact Hf]. Qed.
+Proof. intros C. apply count_loop_ref_chain. apply anc_chain_ref_chain. exact C. Qed.
 
 (* the fuel delete_pages gives the loop (|objects| + 1) always suffices for such a chain *)
-Lemma anc_chain_ids m r l : anc_chain m r l -> incl (map anc_id l) (map fst m).
+Lemma ref_chain_ids m r l : ref_chain m r l -> incl (map anc_id l) (map fst m).
 Proof.
   induction 1 as [|id Hn|id d rest L Hc C IH]; cbn [map anc_id fst]; intros x Hx; try destruct Hx.
   - subst x. eapply lookup_has. exact L.
   - apply IH. exact H.
 Qed.
 
-Lemma anc_chain_fuel m r l : anc_chain m r l -> NoDup (map anc_id l) -> (length l < S (length m))%nat.
+Lemma ref_chain_fuel m r l : ref_chain m r l -> NoDup (map anc_id l) -> (length l < S (length m))%nat.
 Proof.
-  intros C ND. pose proof (NoDup_incl_length ND (anc_chain_ids m r l C)) as H. rewrite !map_length in H. lia.
+  intros C ND. pose proof (NoDup_incl_length ND (ref_chain_ids m r l C)) as H. rewrite !map_length in H. lia.
 Qed.
+
+Lemma anc_chain_fuel m r l : anc_chain m r l -> NoDup (map anc_id l) -> (length l < S (length m))%nat.
+Proof. intro C. apply ref_chain_fuel with r. apply anc_chain_ref_chain. exact C. Qed.
 
 (* what dec_all does: each ancestor with an integer Count has it decremented by one, everything else is untouched *)
 Lemma dec_all_other l : forall m x, ~ In x (map anc_id l) -> lookup (dec_all m l) x = lookup m x.
@@ -122,14 +181,16 @@ Proof.
 Qed.
 
 (* ---------- delete_pages of one page number ---------- *)
-Theorem delete_pages_one d n pid d1 pd l :
+(* [page]: the object stored under the page id -- the page dictionary, or a reference object that leads to it *)
+Theorem delete_pages_one d n pid d1 page rp pd l :
   assoc_N (get_pages d) n = Some pid ->
-  delete_object d pid = Some (d1, Some (ODict pd)) ->
-  anc_chain (d_objects d1) (as_ref (dict_get pd K_Parent)) l -> NoDup (map anc_id l) ->
+  delete_object d pid = Some (d1, Some page) ->
+  dereference (d_objects d1) page = Some (rp, ODict pd) ->
+  ref_chain (d_objects d1) (as_ref (dict_get pd K_Parent)) l -> NoDup (map anc_id l) ->
   delete_pages d [n] = (with_objs d1 (dec_all (d_objects d1) l), LOk).
 Proof.
-  intros Ea Ed C ND. unfold delete_pages. cbn [delete_pages_loop]. rewrite Ea, Ed.
-  rewrite (count_loop_chain (d_objects d1) _ l _ C ND (anc_chain_fuel _ _ _ C ND)). reflexivity.
+  intros Ea Ed Dp C ND. unfold delete_pages. cbn [delete_pages_loop]. rewrite Ea, Ed, Dp.
+  rewrite (count_loop_ref_chain (d_objects d1) _ l _ C ND (ref_chain_fuel _ _ _ C ND)). reflexivity.
 Qed.
 
 (* ---------- a concrete instance (non-vacuity): page 1 of Proofs/EditProofsEx.v's document ---------- *)
@@ -139,7 +200,7 @@ Lemma count_example :
   exists d1 pd l,
     assoc_N (get_pages ex_doc) 1 = Some (3, 0)%N /\
     delete_object ex_doc (3, 0)%N = Some (d1, Some (ODict pd)) /\
-    anc_chain (d_objects d1) (as_ref (dict_get pd K_Parent)) l /\ NoDup (map anc_id l) /\
+    ref_chain (d_objects d1) (as_ref (dict_get pd K_Parent)) l /\ NoDup (map anc_id l) /\
     map anc_id l = [(2, 0)%N] /\
     page_iter (fst (delete_pages ex_doc [1%N])) = [(4, 0)%N] /\
     option_map (fun o => match o with ODict nd => dict_get nd K_Count | _ => None end)
@@ -149,10 +210,95 @@ Proof.
   split; [vm_compute; reflexivity|].
   split; [vm_compute; reflexivity|].
   split.
-  { cbn [dict_get bytes_eqb K_Parent K_Type K_Contents as_ref]. 
-    eapply (ac_cons _ (2, 0)%N); [vm_compute; reflexivity | vm_compute; discriminate|].
-    vm_compute. apply ac_none. }
+  { cbn [dict_get bytes_eqb K_Parent K_Type K_Contents as_ref].
+    eapply (rc_cons _ (2, 0)%N); [vm_compute; reflexivity | vm_compute; discriminate|].
+    vm_compute. apply rc_none. }
   split; [cbn; repeat constructor; intros []|].
   split; [reflexivity|].
+  split; vm_compute; reflexivity.
+Qed.
+
+(* ---------- the two repaired shapes (ISO 32000-1 7.3.10: any value may be an indirect object) ---------- *)
+From LV Require Import Model.EditV0.
+
+(* what the Count entry of the Pages node 2 leads to, and the page list *)
+Definition count_at (d : doc) : option Z :=
+  match lookup (d_objects d) (2, 0)%N with Some (ODict nd) => read_count (d_objects d) nd | _ => None end.
+
+(* C11-count-indirect: the Count of the Pages node 2 is the indirect object 9 *)
+Definition ex_doc_cind : doc :=
+  {| d_version := d_version ex_doc; d_binary_mark := []; d_trailer := d_trailer ex_doc;
+     d_objects :=
+       [((1, 0), ODict [(K_Type, OName K_Catalog); (K_Pages, ORef 2 0)]);
+        ((2, 0), ODict [(K_Type, OName K_Pages); (K_Kids, OArr [ORef 3 0; ORef 4 0]); (K_Count, ORef 9 0)]);
+        ((3, 0), ODict [(K_Type, OName K_Page); (K_Parent, ORef 2 0)]);
+        ((4, 0), ODict [(K_Type, OName K_Page); (K_Parent, ORef 2 0)]);
+        ((9, 0), OInt 2)]%N;
+     d_max_id := 9 |}.
+
+(* C11-page-reference-object: page 3 is the reference object 3 0 obj 8 0 R, the page dictionary is object 8 *)
+Definition ex_doc_pref : doc :=
+  {| d_version := d_version ex_doc; d_binary_mark := []; d_trailer := d_trailer ex_doc;
+     d_objects :=
+       [((1, 0), ODict [(K_Type, OName K_Catalog); (K_Pages, ORef 2 0)]);
+        ((2, 0), ODict [(K_Type, OName K_Pages); (K_Kids, OArr [ORef 3 0; ORef 4 0]); (K_Count, OInt 2)]);
+        ((3, 0), ORef 8 0);
+        ((4, 0), ODict [(K_Type, OName K_Page); (K_Parent, ORef 2 0)]);
+        ((8, 0), ODict [(K_Type, OName K_Page); (K_Parent, ORef 2 0)])]%N;
+     d_max_id := 8 |}.
+
+(* before the repairs: one page is left, the Count still says 2 *)
+Theorem count_indirect_v0_witness :
+  page_iter ex_doc_cind = [(3, 0); (4, 0)]%N /\ count_at ex_doc_cind = Some 2%Z /\
+  exists d', delete_pages_v0 ex_doc_cind [1%N] = (d', LOk) /\ page_iter d' = [(4, 0)%N] /\ count_at d' = Some 2%Z.
+Proof. split; [vm_compute; reflexivity|]. split; [vm_compute; reflexivity|]. eexists. repeat split; vm_compute; reflexivity. Qed.
+
+Theorem page_reference_v0_witness :
+  page_iter ex_doc_pref = [(3, 0); (4, 0)]%N /\ count_at ex_doc_pref = Some 2%Z /\
+  exists d', delete_pages_v0 ex_doc_pref [1%N] = (d', LOk) /\ page_iter d' = [(4, 0)%N] /\ count_at d' = Some 2%Z.
+Proof. split; [vm_compute; reflexivity|]. split; [vm_compute; reflexivity|]. eexists. repeat split; vm_compute; reflexivity. Qed.
+
+(* the repaired code on the same documents: the Count is the number of pages left (an indirect Count entry becomes the number) *)
+Theorem count_repaired_examples :
+  (exists d', delete_pages ex_doc_cind [1%N] = (d', LOk) /\ page_iter d' = [(4, 0)%N] /\ count_at d' = Some 1%Z /\
+              lookup (d_objects d') (2, 0)%N =
+                Some (ODict [(K_Type, OName K_Pages); (K_Kids, OArr [ORef 4 0]); (K_Count, OInt 1)])) /\
+  (exists d', delete_pages ex_doc_pref [1%N] = (d', LOk) /\ page_iter d' = [(4, 0)%N] /\ count_at d' = Some 1%Z).
+Proof. split; eexists; repeat split; vm_compute; reflexivity. Qed.
+
+(* the two repaired shapes at once: page 3 is the reference object 3 0 obj 8 0 R (the page dictionary is object 8), and the
+   Count of the Pages node 2 is the indirect object 9.  Before the repairs (Model/EditV0.v) the Count stayed 2 with one page
+   left; now the entry becomes the direct integer 1 *)
+Definition K_Pages' := Eval cbv in bs "Pages".
+Definition ex_doc_refs : doc :=
+  {| d_version := d_version ex_doc; d_binary_mark := []; d_trailer := d_trailer ex_doc;
+     d_objects :=
+       [((1, 0), ODict [(K_Type, OName K_Catalog); (K_Pages, ORef 2 0)]);
+        ((2, 0), ODict [(K_Type, OName K_Pages); (K_Kids, OArr [ORef 3 0; ORef 4 0]); (K_Count, ORef 9 0)]);
+        ((3, 0), ORef 8 0);
+        ((4, 0), ODict [(K_Type, OName K_Page); (K_Parent, ORef 2 0)]);
+        ((8, 0), ODict [(K_Type, OName K_Page); (K_Parent, ORef 2 0)]);
+        ((9, 0), OInt 2)]%N;
+     d_max_id := 9 |}.
+
+Lemma count_refs_example :
+  page_iter ex_doc_refs = [(3, 0); (4, 0)]%N /\
+  exists d1 pd l,
+    delete_object ex_doc_refs (3, 0)%N = Some (d1, Some (ORef 8 0)) /\
+    dereference (d_objects d1) (ORef 8 0) = Some (Some (8, 0)%N, ODict pd) /\
+    ref_chain (d_objects d1) (as_ref (dict_get pd K_Parent)) l /\ map anc_id l = [(2, 0)%N] /\ map snd l = [Some 2%Z] /\
+    page_iter (fst (delete_pages ex_doc_refs [1%N])) = [(4, 0)%N] /\
+    option_map (fun o => match o with ODict nd => dict_get nd K_Count | _ => None end)
+               (lookup (d_objects (fst (delete_pages ex_doc_refs [1%N]))) (2, 0)%N) = Some (Some (OInt 1)).
+Proof.
+  split; [vm_compute; reflexivity|].
+  eexists. eexists. eexists.
+  split; [vm_compute; reflexivity|].
+  split; [vm_compute; reflexivity|].
+  split.
+  { cbn [dict_get bytes_eqb K_Parent K_Type as_ref].
+    eapply (rc_cons _ (2, 0)%N); [vm_compute; reflexivity | vm_compute; discriminate|].
+    vm_compute. apply rc_none. }
+  split; [reflexivity|]. split; [vm_compute; reflexivity|].
   split; vm_compute; reflexivity.
 Qed.
